@@ -1,6 +1,7 @@
 package main
 
 import (
+	"encoding/json"
 	"fmt"
 	"os"
 	"os/exec"
@@ -162,4 +163,26 @@ func runMutantChild(p *Prop, n int) int {
 		return mutUndecided
 	}
 	return mutMissed
+}
+
+// loadExtraMutants appends the mutants of /verif/mutants_extra/<id>.json
+// (committed; produced by independent reviewers who only saw the property
+// text) to the property's built-in list. Same rules apply: every one must be
+// reported, control mutants must stay silent.
+func loadExtraMutants(p *Prop) {
+	bs, err := os.ReadFile(filepath.Join(verifRoot(), "mutants_extra", p.ID+".json"))
+	if err != nil {
+		return
+	}
+	var list []struct {
+		Name, File, Old, New, Desc string
+		Equivalent               bool
+	}
+	if json.Unmarshal(bs, &list) != nil {
+		fmt.Printf("UNDECIDED property=%s reason=mutants_extra/%s.json does not parse\n", p.ID, p.ID)
+		os.Exit(exitUndecided)
+	}
+	for _, m := range list {
+		p.Mutants = append(p.Mutants, Mutant{Name: "x-" + m.Name, File: m.File, Old: m.Old, New: m.New, Desc: m.Desc, Equivalent: m.Equivalent})
+	}
 }
